@@ -42,11 +42,13 @@ func (s *SearchParams) init(query string) {
 		// '+' means space only when written literally: replace it before percent-decoding,
 		// so that an escaped plus sign (%2B) stays a plus sign.
 		name := strings.ReplaceAll(kv[0], "+", " ")
-		name = s.url.parser.DecodePercentEncoded(name)
+		// Bytes that are not valid UTF-8 count as U+FFFD, one per byte as the serializer writes
+		// them: kept raw they sort differently before and after a serialization.
+		name = string([]rune(s.url.parser.DecodePercentEncoded(name)))
 		nvp := &NameValuePair{Name: name}
 		if len(kv) == 2 {
 			value := strings.ReplaceAll(kv[1], "+", " ")
-			value = s.url.parser.DecodePercentEncoded(value)
+			value = string([]rune(s.url.parser.DecodePercentEncoded(value)))
 			nvp.Value = value
 		}
 		s.params = append(s.params, nvp)
